@@ -52,6 +52,7 @@ func ruleDET1(c *Ctx) {
 					if _, ok := info.TypeOf(x.X).Underlying().(*types.Map); ok {
 						construct := fmt.Sprintf("%s/range(%s)", funcKey(pk, fd), exprString(x.X))
 						idx++
+						det1Func = funcKey(pk, fd)
 						classifyMapRange(c, rule, construct, pk, fd, stack[len(stack)-1], x)
 					}
 				case *ast.CallExpr:
@@ -231,6 +232,12 @@ func orderingUse(c *Ctx, info *types.Info, n ast.Node, target ast.Expr) (bool, s
 			cmp := ""
 			if len(call.Args) >= 2 {
 				cmp = " by " + truncate(exprString(call.Args[1]), 90)
+				// a key obtained through an interface method is not known to be unique across the
+				// implementers (a rule and a terminal may both be called ERROR): elements that tie keep
+				// the map's order
+				if why := interfaceSortKey(c, info, call.Args[1]); why != "" {
+					return false, why
+				}
 			}
 			return true, fmt.Sprintf("%s(%s)%s", full, exprString(target), cmp)
 		}
@@ -1508,4 +1515,115 @@ func writeSites(p *Program, pk *packages.Package) []writeSite {
 		}
 	}
 	return out
+}
+
+
+// det1Func is the function whose map range is being classified (set by ruleDET1's walk).
+var det1Func string
+
+// interfaceKeyExceptions: functions that sort a map's content by an interface-method key, with the
+// reason why ties are harmless; the reason is verified structurally on every run.
+var interfaceKeyExceptions = map[string]string{
+	"lr1.TransitionMap.Inputs": "every consumer reachable from cmd/lox narrows the element to one implementer (*Rule) by a type assertion before using it, and names are unique within one implementer",
+}
+
+func interfaceSortKey(c *Ctx, info *types.Info, cmp ast.Expr) string {
+	fl, ok := ast.Unparen(cmp).(*ast.FuncLit)
+	if !ok {
+		return ""
+	}
+	var key string
+	ast.Inspect(fl.Body, func(n ast.Node) bool {
+		call, ok := n.(*ast.CallExpr)
+		if !ok || key != "" {
+			return true
+		}
+		sel, ok := call.Fun.(*ast.SelectorExpr)
+		if !ok {
+			return true
+		}
+		if s := info.Selections[sel]; s != nil && s.Kind() == types.MethodVal {
+			if _, isIface := s.Recv().Underlying().(*types.Interface); isIface {
+				key = types.TypeString(s.Recv(), func(p *types.Package) string { return p.Name() }) + "." + sel.Sel.Name + "()"
+			}
+		}
+		return true
+	})
+	if key == "" {
+		return ""
+	}
+	if _, ok := interfaceKeyExceptions[det1Func]; ok {
+		if bad := verifyNarrowingConsumers(c, det1Func); bad == "" {
+			return ""
+		} else {
+			return fmt.Sprintf("sorted by %s, which different implementers can share, and %s", key, bad)
+		}
+	}
+	return fmt.Sprintf("sorted by %s only: two elements of different dynamic type can have the same key (a rule and a terminal may both be named ERROR) and keep the map's iteration order", key)
+}
+
+// verifyNarrowingConsumers: every production call site of the function ranges over the result and
+// narrows the element by a type assertion first, or lies in a function nothing in production calls.
+func verifyNarrowingConsumers(c *Ctx, fn string) string {
+	p := c.Prog
+	name := fn[strings.LastIndex(fn, ".")+1:]
+	called := map[string]bool{}
+	p.ProdFiles(func(pk *packages.Package, f *ast.File) {
+		ast.Inspect(f, func(n ast.Node) bool {
+			if call, ok := n.(*ast.CallExpr); ok {
+				if cf := calleeFunc(pk.TypesInfo, call); cf != nil && strings.HasPrefix(fullName(cf), modPath) {
+					called[cf.Name()] = true
+				}
+			}
+			if sel, ok := n.(*ast.SelectorExpr); ok {
+				if cf, ok := pk.TypesInfo.Uses[sel.Sel].(*types.Func); ok {
+					called[cf.Name()] = true
+				}
+			}
+			return true
+		})
+	})
+	bad := ""
+	p.ProdFiles(func(pk *packages.Package, f *ast.File) {
+		info := pk.TypesInfo
+		for _, d := range f.Decls {
+			fd, ok := d.(*ast.FuncDecl)
+			if !ok || fd.Body == nil {
+				continue
+			}
+			par := parents(fd)
+			ast.Inspect(fd.Body, func(n ast.Node) bool {
+				call, ok := n.(*ast.CallExpr)
+				if !ok {
+					return true
+				}
+				cf := calleeFunc(info, call)
+				if cf == nil || cf.Name() != name || !strings.HasSuffix(fullName(cf), "/"+strings.Replace(fn, ".", ".", 1)) && !strings.HasSuffix(fullName(cf), fn[strings.Index(fn, ".")+1:]) {
+					return true
+				}
+				rs, ok := par[call].(*ast.RangeStmt)
+				narrowed := false
+				if ok && rs.X == ast.Expr(call) && rs.Value != nil && len(rs.Body.List) > 0 {
+					elem := usesObj(info, rs.Value)
+					first := rs.Body.List[0]
+					ast.Inspect(first, func(m ast.Node) bool {
+						if ta, ok := m.(*ast.TypeAssertExpr); ok && usesObj(info, ta.X) == elem {
+							narrowed = true
+						}
+						return true
+					})
+					// and the element itself is not used outside that first statement's guard, except as the looked-up key
+					if _, isIf := first.(*ast.IfStmt); !isIf {
+						// x, ok := elem.(*T); if !ok { continue }
+						narrowed = narrowed && len(rs.Body.List) > 1
+					}
+				}
+				if !narrowed && called[fd.Name.Name] {
+					bad = fmt.Sprintf("%s uses the elements without narrowing them to one implementer first", funcKey(pk, fd))
+				}
+				return true
+			})
+		}
+	})
+	return bad
 }
